@@ -16,7 +16,7 @@ EXPLANATION = (
     'with no effect after it.  Does not decide the reply grammar over all strings nor that '
     'sorted() yields the requested order.')
 ASSUMPTIONS = ['int(), range(), sorted(), enumerate() behave as documented']
-MINIMUM = {'R13.1': 4, 'R13.2': 2, 'R13.3': 3, 'R13.4': 2}
+MINIMUM = {'R13.1': 4, 'R13.2': 2, 'R13.3': 3, 'R13.4': 2, 'R13.5': 1}
 
 
 def check(ctx):
@@ -153,6 +153,57 @@ def check(ctx):
                 ctx.ob('R13.2', 'scope test matches at a path-component boundary', ok, node=n,
                        message='entries are offered when their location merely starts with %s '
                                '(/a/foo also selects /a/foobar)' % short(arg, 80))
+    # ---- R13.5 every piece of the reply is examined
+    reply_calls = [n for n in b.nodes('ext') if n.data['fn'] in ('input', 'raw_input')]
+    rids = set(cid(n.data['result']) for n in reply_calls)
+    splits = {}
+    for n in b.nodes('mcall'):
+        if n.data['name'] == 'split' and contains(n.data['recv'], lambda x: cid(x) in rids):
+            splits[cid(n.data['result'])] = n
+    unpacked = {}
+    for n in b.nodes('unpack'):
+        for a in flat(n.data['value']):
+            unpacked.setdefault(cid(a), []).append(n.data['arity'])
+    iterated = set()
+    for n in b.nodes('loop', 'iteration'):
+        it = n.data.get('iter')
+        v = n.data.get('value')
+        if it is not None:
+            for a in flat(it):
+                if cid(a) in splits:
+                    iterated.add(cid(a))
+        if v is not None:
+            for a in flat(v):
+                if isinstance(a, Elem) and cid(strip(a.container)) in splits:
+                    iterated.add(cid(strip(a.container)))
+    indexed = {}
+    for n in b.nodes():
+        for key in ('value', 'args', 'cond'):
+            t = n.data.get(key)
+            ts = t if isinstance(t, list) else [t]
+            for tt in ts:
+                if not isinstance(tt, T):
+                    continue
+                for x in walk(tt):
+                    if isinstance(x, Sub) and cid(x.base) in splits and \
+                            isinstance(strip(x.index), Const):
+                        indexed.setdefault(cid(x.base), set()).add(strip(x.index).value)
+    for sid, n in splits.items():
+        if sid in iterated and sid not in indexed:
+            ctx.ob('R13.5', 'the pieces of %s are all iterated' % (n.src or 'split'), True,
+                   node=n)
+            continue
+        if sid in indexed:
+            ar = unpacked.get(sid, [])
+            full = bool(ar) and all(set(range(a)) >= set(i for i in indexed[sid] if i >= 0)
+                                    and not any(i < 0 for i in indexed[sid]) for a in ar)
+            ctx.ob('R13.5', 'all pieces of a split reply part are examined (arity enforced by '
+                            'unpacking, or every piece iterated)', full or sid in iterated,
+                   node=n,
+                   message='only the pieces %s of %s are looked at: what stands between them '
+                           '(e.g. the middle of "0-7-1") is neither parsed nor range-checked, '
+                           'so an invalid reply restores entries' % (
+                               sorted(indexed[sid]), n.src))
     # ---- R13.4
     inputs = [n for n in b.nodes('ext') if n.data['fn'] in ('input', 'raw_input')]
     ctx.require(inputs, 'R13.4: no prompt')
